@@ -2,7 +2,7 @@
 
    1. resolve_on_end's inner map (keys Before / After): [ron_modes_commute], [ron_entries_permutation],
       [ron_any_order]  -- Lowering.resolve_pend2 (order Before, After) equals the loop run in any order.
-   2. resolve_on_else_or_end has one key: [roe_single_key].
+   2. every inner map of resolve_on_else_or_end (keyed by block id) has one key: [roe_single_key].
    3. the id maps are only looked up: [mapping_lookup_order_free].
    4. types_map.  Since the repair of D11 ModuleTypes::new sorts the keys before inserting: [sort_ids_canonical]
       (every visiting order sorts to the ascending list) and [types_map_order] (hence the same dedup map, the same ids
@@ -102,19 +102,21 @@ Theorem roe_single_key bs :
   (forall e, In e (roe_map bs) -> fst e = IBefore)
   /\ (length (roe_map bs) <= 1)%nat
   /\ (forall es, Permutation (roe_map bs) es -> es = roe_map bs)
-  /\ (forall st w, r_roe st = bs -> resolve_entries (roe_map bs) w = snd (resolve_roe st w)).
+  /\ (forall k st w, bs <> [] -> ron_get k (r_roe st) = Some (mkPend2 (mkPend [] bs) pend0) ->
+        resolve_entries (roe_map bs) w = snd (resolve_roe k st w)).
 Proof.
   rewrite roe_map_shape. destruct bs as [|b bs].
   - repeat split.
     + intros e [].
     + cbn. lia.
     + intros es H. apply Permutation_nil in H. exact H.
-    + intros st w H. unfold resolve_roe. rewrite H. reflexivity.
+    + intros k st w H. congruence.
   - repeat split.
     + intros e [<-|[]]. reflexivity.
     + cbn. lia.
     + intros es H. apply Permutation_length_1_inv in H. exact H.
-    + intros st w H. unfold resolve_roe. rewrite H. reflexivity.
+    + intros k st w _ H. unfold resolve_roe. rewrite H. cbn [snd].
+      rewrite <- (ron_one_key_before (mkPend2 (mkPend [] (b :: bs)) pend0) w eq_refl). reflexivity.
 Qed.
 
 (* ------------------------------------------------------------------------------------------ *)
